@@ -175,7 +175,20 @@ Section C13.
       /\ pub_oks (pproj tr) = 1
       /\ ack_guard true tr = true.
   Proof. exact (c13_monitor_sound txt). Qed.
+
+  (** ... and for the other clauses: accepted observations of a failed, not successfully poisoned
+      message end Nacked; of a success or a filtered-out error show no poison publish and the
+      unchanged result *)
+  Theorem C13_monitor_sound_rest : forall (eqbM : M -> M -> bool) cfg c0 m0 (h : hscript M) pp pk pb tr final r mf,
+    c13_monitor txt eqbM cfg c0 m0 h pp pk pb tr final r mf = true ->
+    (hs_pre h = PreNone -> handler_failed h = true -> poison_ok cfg m0 h pp = false -> final = Nacked)
+    /\ (forall outs, hs_out h = HRet outs ->
+          pproj tr = [] /\ exists o, r = MRet o None /\ outs_eqb eqbM o outs = true)
+    /\ (forall e outs, hs_out h = HFail e outs -> accepts cfg e = FNo ->
+          poison_pubs (pproj tr) = [] /\ exists o e', r = MRet o (Some e') /\ outs_eqb eqbM o outs = true /\ err_eqb e' e = true).
+  Proof. exact (c13_monitor_sound_rest txt). Qed.
 End C13.
+Print Assumptions C13_monitor_sound_rest.
 Print Assumptions C13_constructor_rejects_empty_topic.
 Print Assumptions C13_poison_metadata.
 Print Assumptions C13_accepted_error_published_once.
